@@ -246,6 +246,79 @@ def _np_tensor_models():
         return STensor((z3.simplify(n),), lambda idx: perm(idx[0]), "int")
     SRange._sorted = _sorted_range
 
+    @model(np.zeros)
+    def m_np_zeros(it, shape, dtype=float, **k):
+        """np.zeros(shape): an array of zeros (a tensor in the verifier: entries may later receive symbolic values)"""
+        shp = tuple(shape) if isinstance(shape, (tuple, list)) else (shape,)
+        if dtype in (bool, np.bool_):
+            return T._full(shp, False, "bool")
+        return T._full(shp, 0.0, "real")
+
+    @model(np.ones)
+    def m_np_ones(it, shape, dtype=float, **k):
+        shp = tuple(shape) if isinstance(shape, (tuple, list)) else (shape,)
+        if dtype in (bool, np.bool_):
+            return T._full(shp, True, "bool")
+        return T._full(shp, 1.0, "real")
+
+    import math as _math
+
+    def _num(it, x, what):
+        if isinstance(x, STensor):
+            x = T.TENSOR_METHODS["item"](it, x)
+        if isinstance(x, SV):
+            if x.kind not in ("real", "int", "bool"):
+                raise OutOfSubset(f"{what} of a symbolic non-number")
+            return to_z3(x, "real")
+        if isinstance(x, (int, float)):
+            return None
+        raise OutOfSubset(f"{what} of {type(x).__name__}")
+
+    # largest x with exp(x) representable as a double is log(DBL_MAX) = 709.78271289338397...; the engine's reals have no
+    # overflow anywhere else (assumption "floats as reals"), but math.exp turns it into an EXCEPTION, i.e. control flow
+    EXP_MAX = z3.RealVal("709.782712893384")
+
+    @model(_math.exp)
+    def m_math_exp(it, x):
+        """math.exp(x) = exp(x); OverflowError('math range error') iff x > log(DBL_MAX)"""
+        e = _num(it, x, "math.exp")
+        if e is None:
+            try:
+                return _math.exp(x)
+            except Exception as ex:
+                ops.raise_(type(ex), *ex.args)
+        if it.cx.branch(e > EXP_MAX):
+            ops.raise_(OverflowError, "math range error")
+        return SV(T.F_EXP(e), "real")
+
+    @model(_math.log)
+    def m_math_log(it, x, *base):
+        """math.log(x) = log(x) for x > 0; ValueError('math domain error') otherwise"""
+        if base:
+            raise OutOfSubset("math.log with a base")
+        e = _num(it, x, "math.log")
+        if e is None:
+            try:
+                return _math.log(x)
+            except Exception as ex:
+                ops.raise_(type(ex), *ex.args)
+        if it.cx.branch(e <= 0):
+            ops.raise_(ValueError, "math domain error")
+        return SV(T.F_LOG(e), "real")
+
+    @model(_math.sqrt)
+    def m_math_sqrt(it, x):
+        """math.sqrt(x) = sqrt(x) for x >= 0; ValueError('math domain error') otherwise"""
+        e = _num(it, x, "math.sqrt")
+        if e is None:
+            try:
+                return _math.sqrt(x)
+            except Exception as ex:
+                ops.raise_(type(ex), *ex.args)
+        if it.cx.branch(e < 0):
+            ops.raise_(ValueError, "math domain error")
+        return SV(T.F_SQRT(e), "real")
+
     _old_getattr = STensor._getattr
 
     def _getattr(self, it, name, node=None):
